@@ -617,7 +617,17 @@ func axiomRelevant(ax *Term, seen map[int]bool) bool {
 			return true
 		case t.Op == "var":
 			return false
-		case t.Op == "select" || strings.HasPrefix(t.Op, "uf:"):
+		case t.Op == "select":
+			return false
+		case strings.HasPrefix(t.Op, "uf:gstr.") || t.Op == "uf:uf_strlast":
+			// string functions: an application over terms of the query is part of its vocabulary
+			for _, a := range t.Args {
+				if !walk(a) {
+					return false
+				}
+			}
+			return true
+		case strings.HasPrefix(t.Op, "uf:"):
 			return false
 		}
 		for _, a := range t.Args {
